@@ -112,6 +112,11 @@ func picast(ctx *Context, x interface{}) interface{} {
 	case bool:
 		return "B_" + strconv.FormatBool(vv)
 	case float64:
+		if vv == 0 {
+			// JSON -0 is a negative zero, which the matcher
+			// takes for 0: one spelling for both.
+			vv = 0
+		}
 		return "F_" + strconv.FormatFloat(vv, 'f', -1, 64)
 	case int:
 		// Sadly, we'll follow Javascript.
